@@ -3369,3 +3369,128 @@ C19_DIR_SORT_KEY = dict(
            ("int(__s)", "!int_of_str {s}", "Z", {"s": "str"})],                        # ValueError unless a decimal numeral
 )
 ALL += [C19_DIR_SORT_KEY]
+# ---- C14 / C13 / C11: the small helpers of data.py that the links above use as PRIMITIVES, translated themselves: Plate.plate_id /
+# plate_name / __lt__ / merge, the one-line properties of ScreenBase on both kinds of receiver, Screen.combine,
+# common.select_unique_zipped_numpy_arrays and filter_dataset_to_unique_treatments (vocabulary: end of Model/Views.v; generated file
+# Generated/SrcPlates.v; proofs Proofs/C14SourceHelpers.v, consistency with the primitives of the C11 / C13 configurations in
+# Proofs/C13SourceHelpers.v).  Objects as in the C14 block: a Screen object is `pyscreen` = (identity tag, contents), a ScreenSubset /
+# Plate object a `view`.  Trusted per entry: one attribute read / numpy call each; calls of translated methods run their translations.
+_H14 = dict(file="src/batchie/data.py", out="SrcPlates.v", overload=True,
+            imports="Generated.Consts Model.Encode Model.Screen Model.Views Generated.SrcEncode Generated.SrcViews")
+_H_LEN = ("len(__l)", "Z.of_nat (length {l})", "Z")
+_H_UNIQUE = ("np.unique(__a)", "sort_uniq Z.compare {a}", "list Z", {"a": "list Z"})             # sorted distinct values
+_H_UNIQUE2 = ("np.unique(__a)", "np_unique2 {a}", "list Z", {"a": "(arr2 Z)"})                    # of a 2-d array: of all its entries
+_H_ALL = ("np.all(__a)", "np_all {a}", "bool", {"a": "list bool"})
+_H_SHAPE0 = ("__a.shape[0]", "Z.of_nat (length {a})", "Z", {"a": "list Z"})
+_H_SHAPE1 = ("__a.shape[1]", "arr2_shape1 {a}", "Z", {"a": "(arr2 Z)"})
+_H_SENTINEL = ("CONTROL_SENTINEL_VALUE", "CONTROL_SENTINEL_VALUE", "Z")                        # Generated/Consts.v: read from common.py
+_H_SETDIFF = ("np.setdiff1d(__a, __b)", "np_setdiff1d {a} {b}", "list Z", {"a": "list Z", "b": "list Z"})
+_H_NUMPY = [_H_LEN, _H_UNIQUE, _H_UNIQUE2, _H_ALL, _H_SHAPE0, _H_SHAPE1, _H_SENTINEL, _H_SETDIFF]
+# what `self.<attribute>` means on each kind of receiver: the stored array of a Screen, the translated property of a ScreenSubset
+# (a[mask] keeps the columns of a 2-d array: the view's treatment_ids have the parent's column count)
+_ON_SCREEN = [
+    ("self.plate_ids", "s_pids (snd self')", "list Z"), ("self.sample_ids", "s_sids (snd self')", "list Z"),
+    ("self.treatment_ids", "screen_tids2 (snd self')", "(arr2 Z)"), ("self.observation_mask", "screen_mask (snd self')", "list bool")]
+_ON_VIEW = [
+    ("self.plate_ids", "!src_view_plate_ids self'", "list Z"), ("self.sample_ids", "!src_view_sample_ids self'", "list Z"),
+    ("self.treatment_ids", "!(dor t__ <- src_view_treatment_ids self'; Ok (s_arity (v_parent self'), t__))", "(arr2 Z)"),
+    ("self.observation_mask", "!src_view_observation_mask self'", "list bool")]
+
+
+def _base_props(kind, prims, params):
+    """the one-line properties of ScreenBase on one kind of receiver; a property that reads another one runs its translation"""
+    n = lambda f: "src_%s_%s" % (kind, f)
+    mk = lambda func, ret, extra=(): dict(_H14, cls="ScreenBase", func=func, name=n(func), pyparams=["self"], params=params, returns=ret,
+                                          vars={}, prims=list(extra) + prims + _H_NUMPY)
+    upi = "src_unique_plate_ids" if kind == "screen" else n("unique_plate_ids")     # on a Screen: the C14 block's translation
+    out = [] if kind == "screen" else [mk("unique_plate_ids", "list Z")]
+    return out + [
+        mk("is_observed", "bool"),
+        mk("n_plates", "Z", [("self.unique_plate_ids", "!%s self'" % upi, "list Z")]),
+        mk("unique_sample_ids", "list Z"),
+        mk("n_unique_samples", "Z", [("self.unique_sample_ids", "!%s self'" % n("unique_sample_ids"), "list Z")]),
+        mk("unique_treatments", "list Z"),
+        mk("n_unique_treatments", "Z", [("self.unique_treatments", "!%s self'" % n("unique_treatments"), "list Z")]),
+        mk("treatment_arity", "Z"),
+    ]
+
+
+H14_SCREEN_PROPS = _base_props("screen", _ON_SCREEN, [("self", "pyscreen")])
+H14_VIEW_PROPS = _base_props("view", _ON_VIEW, [("self", "view")])
+
+# Plate: plate_id, plate_name, __lt__, merge
+_PLATE_FIELDS = dict(
+    _VIEW_FIELDS,
+    plate_names=("pyscreen", "list name", "map r_plate (s_rows (snd {obj}))", "set_screen_plate_names {obj} {val}"),
+    # the id column as the encoder returns it (option = NaN); the store is checked: the model keeps integers
+    _plate_ids=("pyscreen", "list (option Z)", "map Some (s_pids (snd {obj}))", "!store_plate_ids {obj} {val}"))
+H14_PLATE_ID = dict(
+    _H14, cls="Plate", func="plate_id", name="src_plate_id", pyparams=["self"], params=[("self", "view")], returns="Z",
+    vars={"unique_plate_ids": "list Z"},
+    prims=[("self.unique_plate_ids", "!src_view_unique_plate_ids self'", "list Z"), _H_LEN,
+           ("__l[0]", "!list_get {l} (0)", "Z", {"l": "list Z"})],
+    raises=[("Cannot retrieve a plate id from an experiment subset that contains more than one plate", 29)])
+H14_PLATE_NAME = dict(
+    _H14, cls="Plate", func="plate_name", name="src_plate_name", pyparams=["self"], params=[("self", "view")], returns="name",
+    vars={}, fields=_PLATE_FIELDS,
+    prims=[("__l[0]", "!list_get {l} (0)", "name", {"l": "list name"}),          # IndexError on an empty array
+           ("__a[__m]", "select {m} {a}", "list name", {"a": "list name", "m": "list bool"})])
+H14_PLATE_LT = dict(
+    _H14, cls="Plate", func="__lt__", name="src_plate_lt", pyparams=["self", "other"], params=[("self", "view"), ("other", "view")],
+    returns="bool", vars={}, prims=[("__p.size", "!src_view_size {p}", "Z", {"p": "view"})])
+H14_PLATE_MERGE = dict(
+    _H14, cls="Plate", func="merge", name="src_plate_merge", pyparams=["self", "other"], params=[("self", "view"), ("other", "view")],
+    returns="view", vars={}, fields=_PLATE_FIELDS, nested_fields=True,
+    prims=[_IS_NOT, _OR, ("self.plate_name", "!src_plate_name self'", "name"),
+           ("encode_1d_array_to_0_indexed_ids(__a)", "!src_encode_1d_array {a} None", "(list (option Z) * list name * list Z)",
+            {"a": "list name"})],
+    # a[m] = x on the parent's plate_names; an array on the right-hand side is not declared (not a Gallina term: refused by Coq)
+    mask_store={"scalar": "mask_fill {a} {m} {v}", "array": "array_valued_mask_store_is_not_declared {a} {m} {v}"},
+    raises=[("Cannot merge two plates from different screens", 28)])
+
+# Screen.combine: a value of type pyscreen IS a Screen instance; the result is a new object (its contents are returned)
+_T1C = ("list Z", "list bool", "list name")
+H14_SCREEN_COMBINE = dict(
+    _H14, cls="Screen", func="combine", name="src_screen_combine", pyparams=["self", "other"],
+    params=[("self", "pyscreen"), ("other", "pyscreen")], returns="screen", vars={}, eqb={"name": "name_eqb"},
+    prims=[("isinstance(__o, Screen)", "true", "bool", {"o": "pyscreen"})] + C14_SCREEN_SIZE["prims"][:-1]     # the C14 block's Screen attributes
+    + [("np.concatenate([__a, __b])", "{a} ++ {b}", t, {"a": t, "b": t}) for t in _T1C]
+    + [("np.concatenate([__a, __b])", "!concat2 {a} {b}", t, {"a": t, "b": t}) for t in _T2]
+    + [C14_TO_SCREEN["prims"][-1]],           # Screen(<the seven keywords>): the constructor call of to_screen
+    raises=[("other must be a Screen instance", 33), ("Cannot combine screens with different control treatment names", 31)])
+
+# common.select_unique_zipped_numpy_arrays and filter_dataset_to_unique_treatments (on a ScreenSubset and on a Screen)
+H14_SELECT_UNIQUE = dict(
+    _H14, file="src/batchie/common.py", func="select_unique_zipped_numpy_arrays", name="src_select_unique", pyparams=["arrs"],
+    params=[("arrs", "list list Z")], returns="list bool",
+    vars={"x": "list Z", "combined": "(arr2 Z)", "_": "(arr2 Z)", "unique_indices": "list nat", "result": "list bool"},
+    prims=[("len(set(__l))", "Z.of_nat (length (sort_uniq Z.compare {l}))", "Z", {"l": "list Z"}),      # number of distinct values
+           _H_LEN,
+           ("np.vstack(__l)", "!np_vstack {l}", "(arr2 Z)", {"l": "list list Z"}), ("__a.T", "arr2_T 0 {a}", "(arr2 Z)", {"a": "(arr2 Z)"}),
+           # the distinct rows in lexicographic order and, for each, the index of its FIRST occurrence
+           ("np.unique(__a, axis=0, return_index=True)", "(unique_rows2 {a}, first_indices {a})", "((arr2 Z) * list nat)", {"a": "(arr2 Z)"}),
+           ("__l[0]", "!list_get {l} (0)", "list Z", {"l": "list list Z"}),
+           ("np.zeros(__n, dtype=bool)", "repeat false (Z.to_nat {n})", "list bool", {"n": "Z"})],
+    assign_effects=[("result[__i] = True", "result'", "!set_true_at {state} {i}")],          # a[idx] = True: IndexError outside
+    raises=[("All arrays must be of the same length", 27)])
+_UNIQUE_FILTER = dict(
+    _H14, func="filter_dataset_to_unique_treatments", pyparams=["screen"], returns="view",
+    vars={"arrs": "list list Z", "i": "Z", "mask": "list bool"}, coerce=_BOOL_COERCE)
+_UF_PRIMS = [("__a[:, __i]", "!arr2_col 0 {a} {i}", "list Z", {"a": "(arr2 Z)", "i": "Z"}),
+             ("select_unique_zipped_numpy_arrays(__a)", "!src_select_unique {a}", "list bool", {"a": "list list Z"})]
+H14_FILTER_UNIQUE_VIEW = dict(
+    _UNIQUE_FILTER, name="src_filter_unique_view", params=[("screen", "view")],
+    prims=[("screen.sample_ids", "!src_view_sample_ids screen'", "list Z"),
+           ("screen.treatment_arity", "!src_view_treatment_arity screen'", "Z"),
+           ("screen.treatment_ids", "!(dor t__ <- src_view_treatment_ids screen'; Ok (s_arity (v_parent screen'), t__))", "(arr2 Z)"),
+           ("screen.subset(__m)", "!src_view_subset screen' {m}", "view", {"m": "anyarray"})] + _UF_PRIMS)
+H14_FILTER_UNIQUE_SCREEN = dict(
+    _UNIQUE_FILTER, name="src_filter_unique_screen", params=[("screen", "pyscreen")],
+    prims=[("screen.sample_ids", "s_sids (snd screen')", "list Z"),
+           ("screen.treatment_arity", "!src_screen_treatment_arity screen'", "Z"),
+           ("screen.treatment_ids", "screen_tids2 (snd screen')", "(arr2 Z)"),
+           ("screen.subset(__m)", "!src_screen_subset screen' {m}", "view", {"m": "anyarray"})] + _UF_PRIMS)
+
+H14_ALL = H14_SCREEN_PROPS + H14_VIEW_PROPS + [H14_PLATE_ID, H14_PLATE_NAME, H14_PLATE_LT, H14_PLATE_MERGE, H14_SCREEN_COMBINE,
+                                               H14_SELECT_UNIQUE, H14_FILTER_UNIQUE_VIEW, H14_FILTER_UNIQUE_SCREEN]
+ALL += H14_ALL
